@@ -17,7 +17,7 @@
 (* Variant "ok" = the code as it is; the others are slips an edit could     *)
 (* make (tools/model_variants.py requires each to be violated).             *)
 (***************************************************************************)
-EXTENDS CxxStream, FiniteSets, SemIO
+EXTENDS CxxStream, FiniteSets, SemIO, SemF
 CONSTANTS EMIT, Variant, L
 LOCAL Chr(s, i) == SubSeq(s, i, i)
 Bases == {"dec", "oct", "hex", "none", "octhex"}
@@ -85,7 +85,15 @@ IRowOK(b, k, s) ==
                                                 \/ (b = "none" /\ fld \in {"0", "-0"} /\ Chr(s, p.n + 1) \in {"x", "X", "b", "B"}))
 ASSUME \A r \in IRows : /\ IRowOK(r[1], r[2], r[3])
                         /\ (EMIT => PrintT(<<"IS", r[1], r[2], r[3]>>))
-ASSUME PrintT(<<"CxxStreamModel", Cardinality(Rows), Cardinality(IRows)>>)
+(* ---- mpf extraction: the field FParse delimits is a float of the C-level grammar (SemF!ParseFlt = mpf_set_str, base 10) ---- *)
+FAlphabet == <<"1", "5", "0", ".", "e", "E", "-", "+", " ", "x">>
+RECURSIVE FStrs(_)
+FStrs(n) == IF n = 0 THEN {""} ELSE LET S == FStrs(n - 1) IN S \cup {s \o FAlphabet[i] : s \in {t \in S : Len(t) = n - 1}, i \in 1..Len(FAlphabet)}
+FLong == {"1.5", "-2.25e3", "  1e-2", ".5e1", "5.", "1e", "e5", ".e123", "abc", "+3.0E+2x", "0.0009765625", "123456789012345678901234567890.5", "-0.1", "1.5e+10 ", "1e5e5", "1..5", "--1", "\t\n7.25", "1.5.5", "00012.500"}
+FRows == {<<k, s>> : k \in BOOLEAN, s \in FStrs(L) \cup FLong}
+FRowOK(k, s) == LET p == FParse(s, k)  c == ParseFlt(p.fld, 10) IN p.n <= Len(s) /\ (p.ok => c.ok /\ ~c.open)
+ASSUME \A r \in FRows : FRowOK(r[1], r[2]) /\ (EMIT => PrintT(<<"FS", r[1], r[2]>>))
+ASSUME PrintT(<<"CxxStreamModel", Cardinality(Rows), Cardinality(IRows), Cardinality(FRows)>>)
 VARIABLE dummy
 Spec == dummy = 0 /\ [][UNCHANGED dummy]_dummy
 =============================================================================
